@@ -120,6 +120,33 @@ def ob_roundtrip(typ, sys, m, flag):
     return FnOb(reals("x", ns, -BOX, BOX) + reals("v", nv, -BOX, BOX), run)
 
 
+def ob_generate_flags(typ, sys, m, tflag, aflag):
+    """generate_from_var with explicit keyword arguments: each given argument overrides the template's attribute, None keeps it -- in
+    particular an explicit on_para_eq_constraint different from the template's decides how the variables are read"""
+    d = DIMS[sys]
+    eff = tflag if aflag is None else aflag
+    ns, nv = n_stacked(typ, d, m), n_var(typ, d, m, eff)
+
+    def run(I):
+        c = qenv.csys(sys)
+        v = vec_of(I, "v", nv)
+        tmpl = make_obj(typ, c, (SymNd([0.0] * ns) if nd.has_sym(v) else np.zeros(ns)), m, tflag)
+        out = []
+        obj = tmpl.generate_from_var(v, on_para_eq_constraint=aflag)
+        ref = ref_stacked_from_var(typ, d, m, eff, v)
+        out.append(Holds("on_para_eq_constraint of the result: the argument if given, else the template's", obj.on_para_eq_constraint == eff))
+        out.append(Eq("stacked vector == documented correspondence under the effective flag", obj.to_stacked_vector(), np.array(ref, dtype=object)))
+        out.append(Eq("to_var() == v", obj.to_var(), v))
+        for kw, val in (("on_algo_eq_constraint", not tmpl.on_algo_eq_constraint), ("on_algo_ineq_constraint", not tmpl.on_algo_ineq_constraint),
+                        ("is_estimation_object", not tmpl.is_estimation_object), ("eps_proj_physical", 3e-7)):
+            o2 = tmpl.generate_from_var(v, on_para_eq_constraint=aflag, **{kw: val})
+            out.append(Holds(f"{kw} given: taken from the argument", getattr(o2, kw) == val))
+            out.append(Holds(f"{kw} not given: the template's", getattr(obj, kw) == getattr(tmpl, kw)))
+            out.append(Holds(f"{kw} given: on_para_eq_constraint unaffected", o2.on_para_eq_constraint == eff))
+        return out
+    return FnOb(reals("v", nv, -BOX, BOX), run)
+
+
 def fwd_index(typ, c, tmpl, i, flag):
     """variable index -> flat index into the stacked vector, through the library's index map"""
     from quara.objects import state as S, povm as P, gate as G, mprocess as MP
@@ -357,6 +384,11 @@ def obligations(tier):
                     out += specs("C03.index.inverse", [cfg], ob_index_inv, 1)
                     if DIMS[s] == 2 or typ in ("state", "povm"):
                         out += specs("C03.gradient", [cfg], ob_gradient, 2)
+    for typ in TYPES:
+        m = 0 if typ in ("state", "gate") else 3
+        for tflag in (True, False):
+            for aflag in (None, True, False):
+                out += specs("C03.generate.flags", [{"typ": typ, "sys": "Q1", "m": m, "tflag": tflag, "aflag": aflag}], ob_generate_flags, 1)
     for sn, fl in tiers(tier, [("A", "TF"), ("B", "FT")], [("A", "TF"), ("A", "FT"), ("B", "FT"), ("B", "T"), ("C", "TF"), ("C", "F")]):
         out += specs("C03.set.index", [{"setname": sn, "sys": "Q1", "flags": fl}], ob_set_index, 6)
         out += specs("C03.set.from_var_total", [{"setname": sn, "sys": "Q1", "flags": fl}], ob_set_from_var_total, 2)
